@@ -192,7 +192,24 @@ func ruleReadChunk(r *Report) {
 		// arguments: commits[chunk], chunk, OfBitmap(fill) — evaluated under the locks
 		argsOK := len(c.Call.Args) == 3
 		if argsOK {
-			ld, isLd := c.Call.Args[0].(*ssa.UnOp)
+			// commits[block], or 0 for a block the table does not cover yet (`last := 0; if block <
+			// len(commits) { last = commits[block] }`)
+			id := c.Call.Args[0]
+			if phi, isPhi := id.(*ssa.Phi); isPhi {
+				var ld ssa.Value
+				zero := false
+				for _, e := range phi.Edges {
+					if k, isC := constInt(e); isC && k == 0 {
+						zero = true
+					} else {
+						ld = e
+					}
+				}
+				if zero && ld != nil {
+					id = ld
+				}
+			}
+			ld, isLd := id.(*ssa.UnOp)
 			if !isLd {
 				argsOK = false
 			} else if ia, isIA := ld.X.(*ssa.IndexAddr); !isIA {
@@ -210,6 +227,53 @@ func ruleReadChunk(r *Report) {
 			}
 		}
 		h.Check(argsOK, "(*column.Collection).readChunk/args", r.P.InstrPos(c), "callback(commits[block], block, fill-of-block)", "readChunk does not hand the block's own commit id and fill slice to the callback")
+	}
+	// the table of commit ids is grown at commit time, the fill list when an offset is reserved: a
+	// block of the fill list may not be covered by the table yet (a transaction that has not committed
+	// holds an offset in it), so the snapshot's index into the table is tested against its length
+	for _, g := range deepFuncs(fn) {
+		allInstrs(g, func(ins ssa.Instruction) {
+			ia, isIA := ins.(*ssa.IndexAddr)
+			if !isIA {
+				return
+			}
+			fr, isF := loadedField(ia.X)
+			if !isF || fr.Struct != "column.Collection" || fr.Field != "commits" {
+				return
+			}
+			ok := edgeGuarded(ia.Block(), func(c ssa.Value) (bool, bool) {
+				bo, isB := strip(c).(*ssa.BinOp)
+				if !isB {
+					return false, false
+				}
+				op, x, y, _, _ := canonBin(bo)
+				isLen := func(v ssa.Value) bool {
+					return dependsOn(v, func(z ssa.Value) bool {
+						cl, isC := z.(*ssa.Call)
+						if !isC || len(cl.Call.Args) != 1 {
+							return false
+						}
+						b, isBI := cl.Call.Value.(*ssa.Builtin)
+						if !isBI || b.Name() != "len" {
+							return false
+						}
+						f2, isF2 := loadedField(cl.Call.Args[0])
+						return isF2 && f2.Field == "commits"
+					}, 4)
+				}
+				isIdx := func(v ssa.Value) bool {
+					return dependsOn(v, func(z ssa.Value) bool { return sameExpr(z, ia.Index) }, 4)
+				}
+				switch {
+				case op == token.LSS && isIdx(x) && isLen(y): // idx < len
+					return true, true
+				case op == token.LEQ && isLen(x) && isIdx(y): // len <= idx
+					return true, false
+				}
+				return false, false
+			})
+			h.Check(ok, "(*column.Collection).readChunk/commits-in-range", r.P.InstrPos(ins), "the index into the commit-id table is tested against its length", "the snapshot indexes the commit-id table with a block of the fill list without testing it against the table's length: the table is grown at commit time, the fill list when an offset is reserved, so Snapshot panics (index out of range) beside a transaction that holds a reserved offset in a block no commit has created yet")
+		})
 	}
 	// writeState writes the id it was given, and the inserts from that fill slice
 	ws := r.Anchor("(*column.Collection).writeState")
